@@ -145,8 +145,10 @@ func main() {
 		}
 		obs = scoped
 		perRule[id] = len(obs)
-		if found < r.Min {
-			broken = append(broken, fmt.Sprintf("rule %s found %d instances, fewer than the %d confirmed by hand: an anchor was renamed or removed and the rule must be re-validated", id, found, r.Min))
+		// fewer than half of the instances confirmed by hand: the rule has lost its anchors (a smaller drop is
+		// ordinary code evolution - the instances that are left are still decided)
+		if found < (r.Min+1)/2 {
+			broken = append(broken, fmt.Sprintf("rule %s found %d instances, fewer than half of the %d confirmed by hand: an anchor was renamed or removed and the rule must be re-validated", id, found, r.Min))
 		}
 		all = append(all, obs...)
 		ruleDocs = append(ruleDocs, id+": "+r.Doc)
